@@ -19,7 +19,7 @@ import solver  # noqa: E402
 import symex  # noqa: E402
 from symex import Adt, Scalar, Sym, Tokens, conj, disj, neg  # noqa: E402
 
-PROPS = ("C07", "C04", "C01", "C13", "C05", "C11", "C06", "C14", "C17", "C03", "C08", "C09", "C12", "C15", "C16")
+PROPS = ("C07", "C04", "C01", "C13", "C05", "C11", "C06", "C14", "C17", "C03", "C08", "C09", "C12", "C15", "C16", "C02")
 
 _LOADED = {}
 
